@@ -645,6 +645,7 @@ func (s *Server) getRaft() *raftNode {
 
 // leadershipAcquired should be called when this node is elected leader.
 func (s *Server) leadershipAcquired(raft *raftNode) error {
+	verifGate("leadership.acquired." + s.config.Clustering.ServerID)
 	s.logger.Infof("Server became metadata leader, performing leader promotion actions")
 
 	// Use a barrier to ensure all preceding operations are applied to the FSM.
@@ -673,6 +674,7 @@ func (s *Server) leadershipAcquired(raft *raftNode) error {
 
 // leadershipLost should be called when this node loses leadership.
 func (s *Server) leadershipLost(raft *raftNode) error {
+	verifGate("leadership.lost." + s.config.Clustering.ServerID)
 	s.logger.Warn("Server lost metadata leadership, performing leader stepdown actions")
 
 	// Unsubscribe from leader NATS subject for propagated requests.
